@@ -68,9 +68,9 @@ def gen(run):
     for (w, h) in C.enc_sizes(rng, 30 if quick else 400, 1 if quick else 10):
         glines.append(C.enc_line(rng, False, w, h)); tags.append("file-lossy")
     for i in range(10 if quick else 200):
-        cw, ch = rng.randint(8, 96), rng.randint(8, 96)
-        glines.append("anim %d %d %d %d %d %d %d %d %d %d" % (cw, ch, rng.randint(2, 5), rng.choice([0, 1, 1]), rng.choice([1, 2, 4, 5, 6]),
-                                                          rng.choice([0, 0, 3]), rng.getrandbits(30), rng.randint(0, 1), rng.randint(0, 1), rng.randint(0, 4)))
+        cw, ch = (rng.randint(8, 96), rng.randint(8, 96)) if i % 3 else (rng.randint(150, 400), rng.randint(150, 400))
+        glines.append("anim %d %d %d %d %d %d %d %d %d %d" % (cw, ch, rng.randint(2, 5), rng.choice([0, 0, 1]), rng.choice([1, 2, 4, 5, 6]),
+                                                          rng.choice([0, 1, 2, 3, 4]), rng.getrandbits(30), rng.randint(0, 1), rng.randint(0, 1), rng.randint(0, 4)))
         tags.append("file-anim")
     for i in range(14 if quick else 300):
         glines.append("mux %d %d %d %d %d %d %d %d %d %d" % (rng.choice([0, 1, 1]), rng.randint(1, 64), rng.randint(1, 64), rng.choice(C.PATTERNS),
@@ -78,7 +78,9 @@ def gen(run):
                                                          rng.choice([0, 5, 64, 333]), rng.choice([0, 9, 100, 777]), rng.randint(0, 6)))
         tags.append("file-mux")
     for i in range(8 if quick else 150):
-        glines.append("muxanim %d %d %d %d %d %d %d" % (rng.randint(4, 80), rng.randint(4, 80), rng.randint(1, 4), rng.choice([0, 1, 1]),
+        big = i % 2 == 0
+        glines.append("muxanim %d %d %d %d %d %d %d" % (rng.randint(150, 420) if big else rng.randint(4, 80), rng.randint(150, 420) if big else rng.randint(4, 80),
+                                                      rng.randint(1, 4), rng.choice([0, 0, 1]),
                                                       rng.choice([0, 1, 2]), rng.getrandbits(30), rng.choice([0, 0, 20])))
         tags.append("file-muxanim")
     files = C.run_generators(run, glines)
@@ -111,7 +113,7 @@ def gen(run):
         W, H, data, _ = G.build(rng, size=(rng.choice([2048, 4096, 16384]), rng.choice([1024, 2048, 16384])), big_fill=True)
         yield C.case(W, H, data), "valid-bigfill"
     for i in range(20 if quick else 800):
-        W, H, data, _ = V.build_lossless(rng, rng.choice(["plain", "deep"]))
+        W, H, data, _ = V.build_lossless(rng, rng.choice(["plain", "deep", "arbdeep"]))
         yield C.case(W, H, data), "valid-c19"
     # the documented strictness cases (libwebp accepts, webpsan refuses: must be classified as strict_exception)
     for v in sorted(G.STRICTNESS):
